@@ -192,83 +192,91 @@ def prune_dead(e: absdoc.AbsEl):
     prune_dead(c)
 
 
-def abs_diff(r: absdoc.AbsDoc, o: absdoc.AbsDoc, cat: str) -> str:
-  """Cheap direct diagnosis of the field in which the two AbsDocs differ; only used to NAME the mechanism.  For a style
-  category the first difference in that property is looked for (then in any property), otherwise the first structural /
-  timing difference."""
+def abs_diff(r: absdoc.AbsDoc, o: absdoc.AbsDoc, cat: str):
+  """Cheap direct diagnosis of the field in which the two AbsDocs differ; only used to NAME the mechanism: returns
+  (mechanism class, detail).  For a style category the first difference in that property is looked for (then in any property);
+  for the other categories the first timing / structure difference (then any style difference)."""
   want0 = cat.split(":", 1)[1] if cat.startswith("style:") else None
 
   def val_eq(p, a, b):
     return c05.equiv_value(p, a, b) if p == "FontFamily" else isdcheck.pequal(a, b, RTOL)
 
-  def walk(want, styles_only):
+  def fam(kind):
+    return "region" if kind == "Region" else "ruby" if kind in ("Ruby", "Rb", "Rt", "Rp", "Rbc", "Rtc") else "content"
+
+  def walk(want, do_styles, do_timing):
     def styles(x, y):
       src = getattr(x, "_src", {})
       for p in sorted(set(x.styles) | set(y.styles)):
         if want is not None and p != want:
           continue
         if p not in x.styles:
-          return "specified-extra"
+          return ("style-association:specified-extra", f"{x.kind} {p}")
         tag = form_tag(p, x.styles[p])
         if src.get(p) == "referenced-by-nested":
           tag = ""      # the whole reference is at stake, not the syntax of one value
         if p not in y.styles:
-          return tag or f"specified-missing:{src.get(p, '?')}"
+          return (f"value-syntax:{p}{tag}" if tag else f"style-association:specified-missing:{src.get(p, '?')}", f"{x.kind} {p}")
         if not val_eq(p, x.styles[p], y.styles[p]):
-          return tag or f"specified-value:{src.get(p, '?')}"
+          return (f"value-syntax:{p}{tag}" if tag else f"style-association:specified-value:{src.get(p, '?')}", f"{x.kind} {p}")
       ax = [a for a in x.anims if want is None or a[0] == want]
       ay = [a for a in y.anims if want is None or a[0] == want]
       if len(ax) != len(ay):
-        return (form_tag(ax[0][0], ax[0][3]) if len(ax) == 1 and not ay else "") or "set-count"
+        tag = form_tag(ax[0][0], ax[0][3]) if len(ax) == 1 and not ay else ""
+        return (f"value-syntax:{ax[0][0]}{tag}" if tag else "style-association:set-count", f"set on {x.kind}")
       for (p1, b1, e1, v1), (p2, b2, e2, v2) in zip(ax, ay):
         if p1 != p2 or not val_eq(p1, v1, v2):
-          return form_tag(p1, v1) or "set-value"
+          tag = form_tag(p1, v1)
+          return (f"value-syntax:{p1}{tag}" if tag else "style-association:set-value", f"set {p1} on {x.kind}")
         if (b1 or 0) != (b2 or 0) or e1 != e2:
-          return "set-time"
+          return ("timing:set", f"set {p1} on {x.kind}: [{b1}, {e1}) vs [{b2}, {e2})")
       return None
 
     def el(x, y, ctx):
       if x.kind != y.kind:
-        return f"kind:{x.kind}-vs-{y.kind}"
-      tag = x.kind + ctx
+        return ("structure:kind", f"{x.kind} vs {y.kind}")
       if x.kind == "Text":
-        return None if (styles_only or x.text == y.text) else "text"
-      if not styles_only:
+        return None if (not do_timing or x.text == y.text) else ("text", f"{x.text!r} vs {y.text!r}")
+      if do_timing:
         if x.kind != "Br":
           if (x.begin or 0) != (y.begin or 0):
-            return f"begin:{tag}"
+            return (f"timing:begin:{fam(x.kind)}{ctx}", f"{x.kind} begin {x.begin} vs {y.begin}")
           if x.end != y.end:
-            return f"end:{tag}"
+            return (f"timing:end:{fam(x.kind)}{ctx}", f"{x.kind} end {x.end} vs {y.end}")
           if x.space != y.space:
-            return f"space:{x.kind}"
+            return ("space", f"{x.kind} xml:space {x.space} vs {y.space}")
           if x.lang != y.lang:
-            return f"lang:{x.kind}"
+            return ("lang", f"{x.kind} xml:lang {x.lang!r} vs {y.lang!r}")
         if x.region_id != y.region_id:
-          return f"region-ref:{x.kind}"
-      d = styles(x, y)
-      if d:
-        return d
+          return ("region-ref", f"{x.kind} region {x.region_id} vs {y.region_id}")
+      if do_styles:
+        d = styles(x, y)
+        if d:
+          return d
       if len(x.children) != len(y.children):
-        return f"children:{tag}:{'fewer' if len(y.children) < len(x.children) else 'more'}"
+        return (f"structure:children-{'fewer' if len(y.children) < len(x.children) else 'more'}:{fam(x.kind)}{ctx}",
+                f"{x.kind} children {[c.kind for c in x.children]} vs {[c.kind for c in y.children]}")
       sub = "-in-seq" if getattr(x, "_seq", False) else ""
       for a, b in zip(x.children, y.children):
         d = el(a, b, sub)
         if d:
           return d
       return None
-    for p in sorted(set(r.initials) | set(o.initials)):
-      if want is not None and p != want:
-        continue
-      if p not in r.initials or p not in o.initials or not val_eq(p, r.initials[p], o.initials[p]):
-        return (form_tag(p, r.initials[p]) if p in r.initials else "") or "initial"
+    if do_styles:
+      for p in sorted(set(r.initials) | set(o.initials)):
+        if want is not None and p != want:
+          continue
+        if p not in r.initials or p not in o.initials or not val_eq(p, r.initials[p], o.initials[p]):
+          tag = form_tag(p, r.initials[p]) if p in r.initials else ""
+          return (f"value-syntax:{p}{tag}" if tag else "style-association:initial", f"initial {p}")
     if [x.id for x in r.regions] != [x.id for x in o.regions]:
-      return "regions"
+      return ("regions", f"region ids {[x.id for x in r.regions]} vs {[x.id for x in o.regions]}")
     for x, y in zip(r.regions, o.regions):
       d = el(x, y, "")
       if d:
         return d
     if (r.body is None) != (o.body is None):
-      return "body-presence"
+      return ("structure:body-presence", "")
     if r.body is not None:
       d = el(r.body, o.body, "")
       if d:
@@ -278,8 +286,8 @@ def abs_diff(r: absdoc.AbsDoc, o: absdoc.AbsDoc, cat: str) -> str:
     prune_dead(r.body)
     prune_dead(o.body)
   if want0 is not None:
-    return walk(want0, True) or walk(None, True) or walk(None, False) or "no-direct-difference"
-  return walk(None, False) or "no-direct-difference"
+    return walk(want0, True, False) or walk(None, True, False) or walk(None, False, True) or (cat + "/no-direct-difference", "")
+  return walk(None, False, True) or walk(None, True, False) or (cat + "/no-direct-difference", "")
 
 
 def compare(refs, obs, root_extent, counter=None):
@@ -297,13 +305,8 @@ def compare(refs, obs, root_extent, counter=None):
       c05.strip_ids(o2)
       d, ne = view_diff(r2, o2, counter)
       if d is not None:
-        hint = abs_diff(r2, o2, d[0])
-        if d[0].startswith("style:") and hint.startswith("["):
-          d = ("value-syntax:" + d[0][6:] + hint, d[1], d[2])   # a tagged syntactic form of the value: one mechanism
-        elif d[0].startswith("style:") and hint.startswith(("specified-", "set-", "initial")):
-          d = ("style-association:" + hint, d[1], d[2])         # precedence / association mechanisms do not depend on the property
-        else:
-          d = (d[0] + "/" + hint, d[1], d[2])
+        mech, detail = abs_diff(r2, o2, d[0])
+        d = (mech, d[1] + (f" [first direct difference: {detail}]" if detail else ""), d[2])
     nonempty = nonempty or ne
     if d is None:
       if counter is not None and len(refs) > 1:
@@ -429,7 +432,7 @@ def check_doc(ctx, xml: str, classes=(), source="gen", do_shrink=True):
     ctx.nontriv(xml)
     ctx.count("docs:nontrivial")
   if status == "ok":
-    if nonempty and source == "gen":
+    if nonempty and source == "gen" and sum(1 for x in ctx.samples if x.get("kind") == "doc") < 2:
       ctx.sample({"kind": "doc", "elements": info.elements, "xml_head": xml[450:1100]})
     return status
   witness = xml
@@ -491,6 +494,12 @@ def check_corruption(ctx, c: dict):
         ctx.nontriv(c["xml"])
       if differs is None and len(ctx.samples) < 4 and nonempty:
         ctx.sample({"kind": "corruption", "attr": desc, "logged": [m for _n, m in new_records(rec1, rec0)][:2]})
+  if refs is not None and c.get("element_index") in info.blocked:
+    # the attribute sits on an element that can never begin (after a seq sibling that never ends): a reader may skip it unread
+    ctx.count("corrupt:skipped:log-clause-on-blocked-element")
+    if judged:
+      ctx.count(f"corrupt:{kind}:judged")
+    return
   logged = bool(new_records(rec1, rec0))
   changed = "" if differs is None else f"; it is NOT ignored - the presentation differs from the document without the attribute: {differs[1]}"
   if not c["known"]:
